@@ -2,6 +2,7 @@ package main
 
 import (
 	"fmt"
+	"go/token"
 	"go/types"
 	"sort"
 	"strings"
@@ -21,7 +22,7 @@ func (eng *Engine) buildVCWith(fn *ssa.Function, con *Contract, key string) (vc 
 		keySort: map[string]Sort{}, notes: map[string]bool{}, occ: map[string]int{}, allocNames: map[string][]*ssa.Alloc{},
 		paramVals: map[string]Val{}, callOcc: map[string]int{}, trustedUsed: map[string]bool{}, calleesUsed: map[string]bool{},
 		rangeIters: map[ssa.Value]*rangeIter{}, witKeys: map[string]bool{}, tablesUsed: map[string]bool{}, tableInfo: map[string]*tableInfo{},
-		pins: map[string][][2]string{}, declBySort: map[string][]string{}, ptrCells: map[*ssa.Alloc]*Addr{}}
+		pins: map[string][][2]string{}, declBySort: map[string][]string{}, ptrCells: map[*ssa.Alloc]*Addr{}, privSlices: map[*ssa.Alloc]bool{}}
 	defer func() {
 		if r := recover(); r != nil {
 			switch e := r.(type) {
@@ -52,6 +53,44 @@ func (eng *Engine) buildVCWith(fn *ssa.Function, con *Contract, key string) (vc 
 	}
 	for _, as := range vc.allocNames {
 		sort.Slice(as, func(i, j int) bool { return as[i].Pos() < as[j].Pos() })
+	}
+	// call-site ordinals: k-th call of that name in source order
+	{
+		type site struct {
+			c   *ssa.CallCommon
+			pos token.Pos
+			blk, idx int
+		}
+		byName := map[string][]site{}
+		for _, b := range fn.Blocks {
+			for i, ins := range b.Instrs {
+				ci, ok := ins.(ssa.CallInstruction)
+				if !ok {
+					continue
+				}
+				c := ci.Common()
+				if _, isB := c.Value.(*ssa.Builtin); isB {
+					continue
+				}
+				n := witnessName(c)
+				byName[n] = append(byName[n], site{c, ins.Pos(), b.Index, i})
+			}
+		}
+		vc.callOrd = map[*ssa.CallCommon]int{}
+		for _, ss := range byName {
+			sort.SliceStable(ss, func(i, j int) bool {
+				if ss[i].pos != ss[j].pos {
+					return ss[i].pos < ss[j].pos
+				}
+				if ss[i].blk != ss[j].blk {
+					return ss[i].blk < ss[j].blk
+				}
+				return ss[i].idx < ss[j].idx
+			})
+			for k, s := range ss {
+				vc.callOrd[s.c] = k + 1
+			}
+		}
 	}
 	// witnesses referenced by the contract
 	if vc.con != nil {
@@ -85,6 +124,13 @@ func (eng *Engine) buildVCWith(fn *ssa.Function, con *Contract, key string) (vc 
 		}
 		for _, c := range all {
 			walk(c.Expr)
+		}
+		for _, ac := range vc.con.Asserts {
+			if k := strings.Index(ac.Src, ":"); k >= 0 {
+				if e, err := parseSpecExpr(ac.Src[k+1:]); err == nil {
+					walk(e)
+				}
+			}
 		}
 	}
 	st := &State{locals: map[*ssa.Alloc]string{}, vars: map[string]string{}, reach: "true"}
@@ -143,6 +189,9 @@ func (eng *Engine) buildVCWith(fn *ssa.Function, con *Contract, key string) (vc 
 			// in contracts the captured variable's name denotes its content (at entry)
 			a := vc.addrOfRef(n, fv.Type())
 			if a.kind == aBox {
+				if !closureWrites(fn, fv, 0) && parentAllocStable(fn, i) {
+					vc.stableBoxes = append(vc.stableBoxes, stableBox{a.key, n})
+				}
 				k2 := vc.sorts.sortOf(pt.Elem())
 				cv := Val{vc.define("cap_"+fv.Name(), k2, vc.load(a)), pt.Elem(), k2}
 				vc.paramVals[fv.Name()] = cv
@@ -227,4 +276,30 @@ func (vc *FnVC) script(o *Obligation, getModel bool) string {
 		b.WriteString("(get-model)\n")
 	}
 	return b.String()
+}
+
+// parentAllocStable: free variable i of closure fn is bound (in the enclosing function) to a variable that is assigned
+// once and never reassigned by any closure.
+func parentAllocStable(fn *ssa.Function, i int) bool {
+	p := fn.Parent()
+	if p == nil {
+		return false
+	}
+	for _, b := range p.Blocks {
+		for _, ins := range b.Instrs {
+			if mc, ok := ins.(*ssa.MakeClosure); ok && mc.Fn == fn && i < len(mc.Bindings) {
+				switch x := mc.Bindings[i].(type) {
+				case *ssa.Alloc:
+					return stableCaptured(x)
+				case *ssa.FreeVar:
+					for j, f := range p.FreeVars {
+						if f == x {
+							return !closureWrites(p, x, 0) && parentAllocStable(p, j)
+						}
+					}
+				}
+			}
+		}
+	}
+	return false
 }
